@@ -48,6 +48,9 @@ func c16PipelineStream(t *testing.T, rep *hx.Report, orc *hx.Oracle, rng *hx.RNG
 		if nRuns+nProbes == 0 {
 			nRuns = 1
 		}
+		// the request asks for private hops to be removed (RemovePrivateHops runs AFTER Normalize: the
+		// finished document must still be self-consistent)
+		skipPrivate := rng.Chance(1, 3)
 		// scripted runs
 		var runs []*result.TracerouteRun
 		for k := 0; k < nRuns; k++ {
@@ -62,6 +65,9 @@ func c16PipelineStream(t *testing.T, rep *hx.Report, orc *hx.Oracle, rng *hx.RNG
 				h := &result.TracerouteHop{TTL: first + j}
 				if !rng.Chance(1, 3) {
 					h.IPAddress = c16GenAddr(rng, hx.Pick(rng, []string{"v4", "v6", "mapped"}))
+					if skipPrivate && rng.Chance(1, 2) {
+						h.IPAddress = hx.Pick(rng, []net.IP{{10, 1, 2, 3}, {192, 168, 7, 1}, net.ParseIP("172.16.0.9"), net.ParseIP("fd00::5"), {172, 31, 255, 254}})
+					}
 					h.RTT = float64(rng.Range(1, 1<<20)) / 8
 					h.IsDest = j == nh-1 && rng.Bool()
 				}
@@ -114,7 +120,7 @@ func c16PipelineStream(t *testing.T, rep *hx.Report, orc *hx.Oracle, rng *hx.RNG
 			ctx, cancel := context.WithTimeout(context.Background(), time.Hour)
 			defer cancel()
 			out, err = tr.RunTraceroute(ctx, traceroute.TracerouteParams{Hostname: "198.51.100.9", Port: 33434, Protocol: "udp", MinTTL: 1, MaxTTL: 30,
-				Timeout: time.Millisecond, TracerouteQueries: nRuns, E2eQueries: nProbes})
+				Timeout: time.Millisecond, TracerouteQueries: nRuns, E2eQueries: nProbes, SkipPrivateHops: skipPrivate})
 		})
 		key := fmt.Sprintf("pipe|%d|%d|%v|%d", nRuns, nProbes, probes, i)
 		var runToks []string
@@ -126,9 +132,9 @@ func c16PipelineStream(t *testing.T, rep *hx.Report, orc *hx.Oracle, rng *hx.RNG
 			runToks = append(runToks, fmt.Sprint(hs))
 		}
 		replay := map[string]any{"how": "RunTraceroute with VerifSetRunOnce returning these runs / end-to-end samples (0 = unanswered)", "traceroute_queries": nRuns, "e2e_queries": nProbes,
-			"scripted_runs": runToks, "scripted_e2e_samples_ms": fmt.Sprint(probes), "error": fmt.Sprint(err)}
+			"scripted_runs": runToks, "skip_private_hops": skipPrivate, "scripted_e2e_samples_ms": fmt.Sprint(probes), "error": fmt.Sprint(err)}
 		rep.Case("pipeline", key, true, replay)
-		rep.Hit(fmt.Sprintf("pipeline:runs=%d:probes=%s", nRuns, map[bool]string{true: "0", false: ">0"}[nProbes == 0]))
+		rep.Hit(fmt.Sprintf("pipeline:runs=%d:skip-private=%v:probes=%s", nRuns, skipPrivate, map[bool]string{true: "0", false: ">0"}[nProbes == 0]))
 		sig := map[string]string{"site": "pipeline", "class": "gross"}
 		if err != nil || out == nil {
 			rep.Violate(hx.Violation{Kind: "spec", What: "RunTraceroute failed on scripted successful runs: " + fmt.Sprint(err), Sig: sig, Replay: replay})
